@@ -1,6 +1,7 @@
 """C05 — concrete-dependency functions yield a leaf trait any application can adopt."""
 from ..common import Report
-from ..corpus import load, load_repo_tests
+from ..corpus import load, load_repo_tests, load_repo_examples
+from ..docgen import load_repo_docs
 from ..crossgen import load_cross
 from ..model import ty_s
 from ..wrules import (is_mock_impl, FnModView, check_fnmod_delegation, entrait_depth, in_macro, is_impl_adt, pred_set)
@@ -14,6 +15,8 @@ def run(tier):
     loaded += [(cfg, load_cross(rep, cfg, tier)) for cfg in configs]
     if tier == "thorough":
         loaded.append(("unimock_test", load_repo_tests(rep)))
+        loaded += [("unimock_test", ld) for ld in load_repo_examples(rep)]
+        loaded.append(("unimock_test", load_repo_docs(rep)))
     for cfg, ld in loaded:
         for exp in ld.crate.expansions:
             if exp.mode != "fn":
